@@ -9,7 +9,9 @@ import (
 	"strings"
 	"time"
 
+	"github.com/kardiachain/go-kardia/configs"
 	"github.com/kardiachain/go-kardia/kai/accounts/abi"
+	"github.com/kardiachain/go-kardia/kai/kaidb"
 	"github.com/kardiachain/go-kardia/kvm"
 	"github.com/kardiachain/go-kardia/lib/common"
 	"github.com/kardiachain/go-kardia/mainchain/blockchain"
@@ -27,8 +29,17 @@ import (
 type repCfg struct {
 	Name  string
 	Cache *blockchain.CacheConfig
+	Snap  bool // the node keeps a state snapshot tree (SnapshotLimit > 0); otherwise every read goes to the tries
 }
 
+// cacheConfigs: the configurations a node can be started with (mainchain/backend.go New copies
+// TrieCleanCache, TrieDirtyCache, TrieTimeout, SnapshotCache, NoPruning, NoPrefetch, Preimages of its
+// config into blockchain.CacheConfig; cmd/utils/flags.go derives them from --cache, --cache.trie,
+// --cache.gc, --cache.snapshot (0 switches the snapshot off: NewBlockChain only builds the tree when
+// SnapshotLimit > 0), --gcmode, --cache.noprefetch, --cache.preimages). "node-defaults" and
+// "archive-node" are literally what backend.go passes for the default flags and for --gcmode=archive:
+// SnapshotWait stays false there, i.e. the snapshot is generated in the background while blocks are
+// already executed. The other entries wait for the generation (deterministic read paths).
 func cacheConfigs() []repCfg {
 	def := func() *blockchain.CacheConfig {
 		return &blockchain.CacheConfig{TrieCleanLimit: 256, TrieDirtyLimit: 256, TrieTimeLimit: 5 * time.Minute, SnapshotLimit: 256, SnapshotWait: true}
@@ -45,7 +56,19 @@ func cacheConfigs() []repCfg {
 	nopf.TrieCleanNoPrefetch = true
 	nopf.SnapshotLimit = 0
 	nopf.TrieDirtyDisabled = true
-	return []repCfg{{"default", nil}, {"snapshots-off", snapOff}, {"dirty-disabled", archive}, {"preimages", pre}, {"tiny-caches", tiny}, {"noprefetch+snapshots-off+dirty-disabled", nopf}}
+	nodeDef := &blockchain.CacheConfig{TrieCleanLimit: 154, TrieDirtyLimit: 256, TrieTimeLimit: 60 * time.Minute, SnapshotLimit: 102}
+	nodeArchive := &blockchain.CacheConfig{TrieCleanLimit: 154 + 256*3/5, TrieDirtyLimit: 0, TrieDirtyDisabled: true, TrieTimeLimit: 60 * time.Minute, SnapshotLimit: 102 + 256*2/5, Preimages: true}
+	return []repCfg{{"default", nil, true}, {"snapshots-off", snapOff, false}, {"dirty-disabled", archive, true}, {"preimages", pre, true}, {"tiny-caches", tiny, true},
+		{"noprefetch+snapshots-off+dirty-disabled", nopf, false}, {"node-defaults", nodeDef, true}, {"archive-node", nodeArchive, true}}
+}
+
+func cfgByName(name string) repCfg {
+	for _, c := range cacheConfigs() {
+		if c.Name == name {
+			return c
+		}
+	}
+	panic("c06: unknown cache configuration " + name)
 }
 
 // ---------------------------------------------------------------- fixed contracts every world gets
@@ -91,9 +114,12 @@ type scenarioOpts struct {
 	Replicas   []repCfg
 	HandOnly   bool // only hand-built blocks (deterministic block content: comparable across processes)
 	ValHook    bool
-	Reopen     bool
-	Evidence   bool // one hand-built block carries duplicate-vote evidence against a validator (DoubleSign path of the application)
-	Staking    bool // delegate / undelegate / withdraw calls of the real validator contracts (validator power moves through the real application)
+	ValDensity int       // ValHook: a height carries a validator report with probability ValDensity/12 (0: 4/12)
+	Reopen     bool      // every replica but the first is stopped and reopened before the last block (and one database image is opened twice)
+	Restarts   bool      // replicas other than the first are stopped and reopened at random heights (the second one often)
+	Evidence   bool      // one hand-built block carries duplicate-vote evidence against a validator (DoubleSign path of the application)
+	Staking    bool      // delegate / undelegate / withdraw calls of the real validator contracts (validator power moves through the real application)
+	Long       *longPlan `json:"long,omitempty"`
 }
 
 type heightRec struct {
@@ -107,6 +133,8 @@ type heightRec struct {
 	Info     string          `json:"info_digest"`
 	State    string          `json:"state_digest"`
 	Vals     []string        `json:"app_validators,omitempty"`
+	Report   string          `json:"validator_report,omitempty"`
+	Restart  []string        `json:"restarted_before,omitempty"`
 	Specs    []*txgen.TxSpec `json:"tx_specs,omitempty"`
 }
 
@@ -121,6 +149,26 @@ func (f *fingerprint) lines() []string {
 		out = append(out, fmt.Sprintf("%d %s %s %s %s", h.Height, h.Block, h.AppHash, h.Info, h.State))
 	}
 	return out
+}
+
+// pickReplicas draws n configurations, at least one with and one without the snapshot tree.
+func pickReplicas(r *rand.Rand, n int) []repCfg {
+	all := cacheConfigs()
+	for {
+		var out []repCfg
+		snap, trieOnly := false, false
+		for _, i := range r.Perm(len(all))[:n] {
+			out = append(out, all[i])
+			if all[i].Snap {
+				snap = true
+			} else {
+				trieOnly = true
+			}
+		}
+		if snap && trieOnly {
+			return out
+		}
+	}
 }
 
 func drawScenario(r *rand.Rand, quick bool, handOnly bool) scenarioOpts {
@@ -141,17 +189,14 @@ func drawScenario(r *rand.Rand, quick bool, handOnly bool) scenarioOpts {
 	if r.Intn(6) == 0 {
 		o.Heights = 7 + r.Intn(4)
 	}
-	all := cacheConfigs()
 	n := 4
 	if !quick {
 		n = 6
 	}
-	perm := r.Perm(len(all))
-	for _, i := range perm[:n] {
-		o.Replicas = append(o.Replicas, all[i])
-	}
+	o.Replicas = pickReplicas(r, n)
 	o.ValHook = o.NVals >= 2 && r.Intn(2) == 0
 	o.Reopen = r.Intn(2) == 0
+	o.Restarts = r.Intn(3) == 0
 	if !o.ValHook && r.Intn(2) == 0 {
 		o.Staking = true
 	}
@@ -161,38 +206,44 @@ func drawScenario(r *rand.Rand, quick bool, handOnly bool) scenarioOpts {
 	return o
 }
 
-// valSchedule derives, from the case seed, which validator list the application "reports" at a
-// height: the genesis validators with rescaled powers, sometimes with members left out. Every
-// replica gets the same multiset, in its own order.
-func valSchedule(seed int64, height uint64, genesisVals []*types.Validator) []*types.Validator {
-	r := rand.New(rand.NewSource(seed*1000003 + int64(height)))
-	if r.Intn(3) != 0 {
-		return nil // no change reported at this height
+// drawReportScenario: a scenario that is about validator reports: 3-6 genesis validators whose powers
+// are all equal (as in the shipped genesis files), of two levels, or arbitrary; a report at most
+// heights; few transactions.
+func drawReportScenario(r *rand.Rand, quick bool) scenarioOpts {
+	o := scenarioOpts{ValHook: true, ValDensity: 9, Galaxias: "never"}
+	if r.Intn(2) == 0 {
+		o.Galaxias = "genesis"
 	}
-	var out []*types.Validator
-	for _, v := range genesisVals {
-		p := v.VotingPower
-		switch r.Intn(4) {
+	o.NVals = 3 + r.Intn(4)
+	profile := r.Intn(3)
+	for i := 0; i < o.NVals; i++ {
+		switch profile {
 		case 0:
-			p = p * int64(2+r.Intn(3))
+			o.Powers = append(o.Powers, 20)
 		case 1:
-			p = p/int64(2+r.Intn(3)) + 1
-		case 2:
-			if len(genesisVals) > 1 && r.Intn(2) == 0 {
-				continue // left out
-			}
+			o.Powers = append(o.Powers, int64(20+20*(i%2)))
+		default:
+			o.Powers = append(o.Powers, int64(20+10*r.Intn(3)))
 		}
-		out = append(out, types.NewValidator(v.Address, p))
 	}
-	if len(out) == 0 {
-		out = append(out, types.NewValidator(genesisVals[0].Address, genesisVals[0].VotingPower))
+	o.Heights = 7 + r.Intn(4)
+	n := 4
+	if !quick {
+		n = 5
 	}
-	return out
+	o.Replicas = pickReplicas(r, n)
+	o.Restarts = r.Intn(4) == 0
+	o.HandOnly = r.Intn(2) == 0
+	return o
 }
 
 type replicaSet struct {
-	chains []*chainkit.Chain
-	cfgs   []repCfg
+	chains      []*chainkit.Chain
+	cfgs        []repCfg // as shown (the name tells the history)
+	base        []repCfg // the configuration a replica currently runs with
+	orig        []string // configuration a replica started with
+	restarts    []int    // how often a replica was stopped and reopened
+	lastRestart []int    // height before which it was last reopened
 }
 
 func (rs *replicaSet) close() {
@@ -219,8 +270,9 @@ func runScenario(cs *core.Case, r *rand.Rand, o scenarioOpts, tag string) *finge
 	val0 := chainkit.ValAddrOf(0)
 	w := txgen.NewWorld(r, txgen.WorldOpts{Galaxias: o.Galaxias == "genesis", NEOA: 3, NContracts: 3 + r.Intn(3), FixedCoinbase: &val0, RichEOAs: true})
 	fixedContracts(w)
+	directedContracts(w)
 	gen := chainkit.Genesis(w, o.Powers, galaxias)
-	rs := &replicaSet{cfgs: o.Replicas}
+	rs := &replicaSet{cfgs: append([]repCfg(nil), o.Replicas...)}
 	defer rs.close()
 	for _, cfg := range o.Replicas {
 		ch, err := chainkit.New(gen, o.NVals, nil, cfg.Cache, cfg.Name)
@@ -229,20 +281,28 @@ func runScenario(cs *core.Case, r *rand.Rand, o scenarioOpts, tag string) *finge
 			return nil
 		}
 		rs.chains = append(rs.chains, ch)
+		rs.orig = append(rs.orig, cfg.Name)
+		rs.base = append(rs.base, cfg)
+		rs.restarts = append(rs.restarts, 0)
+		rs.lastRestart = append(rs.lastRestart, 0)
 	}
 	genesisVals := rs.chains[0].State.Validators.Copy().Validators
 	hookSeed := r.Int63()
+	var plan *reportPlan
 	if o.ValHook {
+		density := o.ValDensity
+		if density == 0 {
+			density = 4
+		}
+		plan = planReports(rand.New(rand.NewSource(hookSeed)), genesisVals, o.Heights, density)
 		for i, ch := range rs.chains {
 			i := i
 			ch.ValHook = func(height uint64, app []*types.Validator) []*types.Validator {
-				l := valSchedule(hookSeed, height, genesisVals)
-				if l == nil {
+				rp := plan.At[height]
+				if rp == nil {
 					return app
 				}
-				pr := rand.New(rand.NewSource(hookSeed + int64(i)*7919 + int64(height)))
-				pr.Shuffle(len(l), func(a, b int) { l[a], l[b] = l[b], l[a] })
-				return l
+				return orderFor(rp, i, hookSeed, height)
 			}
 		}
 	}
@@ -255,55 +315,107 @@ func runScenario(cs *core.Case, r *rand.Rand, o scenarioOpts, tag string) *finge
 	fp := &fingerprint{}
 	wit := func(extra map[string]interface{}) map[string]interface{} {
 		m := map[string]interface{}{"scenario": o, "tag": tag, "heights": fp.Heights}
+		if plan != nil {
+			m["validator_reports"] = plan.describe()
+		}
 		for k, v := range extra {
 			m[k] = v
 		}
 		return m
 	}
+	// ---- when which replica is stopped and reopened
+	restartAt := map[int][]int{} // height (before it is applied) -> replicas
+	rr := rand.New(rand.NewSource(r.Int63()))
+	if o.Restarts {
+		for h := 2; h <= o.Heights; h++ {
+			for i := 1; i < len(rs.chains); i++ {
+				if (i == 1 && rr.Intn(2) == 0) || rr.Intn(6) == 0 {
+					restartAt[h] = append(restartAt[h], i)
+				}
+			}
+		}
+	}
+	if o.Long != nil {
+		for i, hs := range o.Long.Restart {
+			for _, h := range hs {
+				restartAt[h] = append(restartAt[h], i)
+			}
+		}
+	}
+	// restart stops replica i the way a node shuts down (BlockChain.Stop: snapshot journal, head tries) and
+	// opens its database again, sometimes with another configuration (an operator changing the flags)
+	restart := func(i, h int, twin bool) bool {
+		old := rs.chains[i]
+		before := canonState(old.State)
+		old.Close(true)
+		base := old.N.Base
+		var twinBase kaidb.Database
+		if twin {
+			twinBase = netsim.CopyDB(base)
+		}
+		cfg := rs.base[i]
+		if rr.Intn(3) == 0 && o.Long == nil {
+			all := cacheConfigs()
+			cfg = all[rr.Intn(len(all))]
+		}
+		shown := cfg
+		shown.Name = rs.orig[i] + "->reopened-as-" + cfg.Name
+		nw, err := chainkit.New(gen, o.NVals, base, cfg.Cache, shown.Name)
+		if err != nil {
+			cs.Violation("reopen-fails:"+rs.orig[i], fmt.Sprintf("replica %s cannot be reopened from its own database after a clean stop at height %d: %v", rs.cfgs[i].Name, h-1, err), wit(nil))
+			return false
+		}
+		nw.ValHook = old.ValHook
+		rs.chains[i], rs.cfgs[i], rs.base[i] = nw, shown, cfg
+		rs.restarts[i]++
+		rs.lastRestart[i] = h
+		run.Count("replicas_reopened", 1)
+		if after := canonState(nw.State); maskTotalTx(after) != maskTotalTx(before) {
+			// the store's save/load is C14's subject; here it matters only through what follows (block accepted? same result?)
+			run.Count("reopened_consensus_state_differs_from_memory", 1)
+		}
+		if twin { // a second, independent open of the same database image
+			tcfg := cfg
+			tcfg.Name = rs.orig[i] + "->reopened-twice-as-" + cfg.Name
+			if tw, err := chainkit.New(gen, o.NVals, twinBase, tcfg.Cache, tcfg.Name); err == nil {
+				tw.ValHook = old.ValHook
+				rs.chains = append(rs.chains, tw)
+				rs.cfgs = append(rs.cfgs, tcfg)
+				rs.base = append(rs.base, cfg)
+				rs.orig = append(rs.orig, rs.orig[i])
+				rs.restarts = append(rs.restarts, rs.restarts[i])
+				rs.lastRestart = append(rs.lastRestart, h)
+			}
+		}
+		return true
+	}
+	var lo *longObserver
+	if o.Long != nil {
+		lo = newLongObserver(run, rs.chains[0])
+	}
 	lastCommit := chainkit.EmptyCommit()
 	evidenceAt := 3 + r.Intn(2)
-	reopenAt := -1
-	if o.Reopen {
-		reopenAt = o.Heights // before the last block
-	}
 	for h := 1; h <= o.Heights; h++ {
 		height := uint64(h)
 		if o.Galaxias == "cross" {
 			w.Galaxias = height >= o.ForkHeight
 		}
-		// ---- reopen every replica but the first from its database before the last block
-		if h == reopenAt && len(rs.chains) > 1 {
+		var restarted []string
+		if o.Reopen && h == o.Heights && len(rs.chains) > 1 {
 			n := len(rs.chains)
 			for i := 1; i < n; i++ {
-				old := rs.chains[i]
-				before := canonState(old.State)
-				old.Close(true) // clean stop: flushes head states / snapshot journal as a node shutdown does
-				base := old.N.Base
-				var twinBase = netsim.CopyDB(base)
-				cfg := rs.cfgs[i]
-				if r.Intn(3) == 0 {
-					all := cacheConfigs()
-					cfg = all[r.Intn(len(all))]
-				}
-				nw, err := chainkit.New(gen, o.NVals, base, cfg.Cache, rs.cfgs[i].Name+"->reopened-as-"+cfg.Name)
-				if err != nil {
-					cs.Violation("reopen-fails:"+rs.cfgs[i].Name, fmt.Sprintf("replica %s cannot be reopened from its own database after a clean stop at height %d: %v", rs.cfgs[i].Name, h-1, err), wit(nil))
+				if !restart(i, h, i == 1) {
 					return nil
 				}
-				nw.ValHook = old.ValHook
-				rs.chains[i] = nw
-				run.Count("replicas_reopened", 1)
-				if after := canonState(nw.State); maskTotalTx(after) != maskTotalTx(before) {
-					// the store's save/load is C14's subject; here it matters only through what follows (block accepted? same result?)
-					run.Count("reopened_consensus_state_differs_from_memory", 1)
-				}
-				if i == 1 { // a second, independent open of the same database image
-					tw, err := chainkit.New(gen, o.NVals, twinBase, cfg.Cache, rs.cfgs[i].Name+"->reopened-twice-as-"+cfg.Name)
-					if err == nil {
-						tw.ValHook = old.ValHook
-						rs.chains = append(rs.chains, tw)
-						rs.cfgs = append(rs.cfgs, repCfg{tw.Label, cfg.Cache})
+				restarted = append(restarted, rs.cfgs[i].Name)
+			}
+		} else {
+			for _, i := range restartAt[h] {
+				if i < len(rs.chains) {
+					if !restart(i, h, false) {
+						return nil
 					}
+					restarted = append(restarted, rs.cfgs[i].Name)
 				}
 			}
 		}
@@ -313,7 +425,33 @@ func runScenario(cs *core.Case, r *rand.Rand, o scenarioOpts, tag string) *finge
 			builder = 0
 		}
 		bch := rs.chains[builder]
-		specs := planTxs(r, w, bch.N.BC, height, si)
+		po := planOpts{Random: -1, PoolGas: 3000000, Directed: true}
+		if o.ValDensity > 4 {
+			po.Random = r.Intn(3)
+		}
+		gl := uint64(300000 + r.Intn(4000000))
+		if r.Intn(4) == 0 {
+			gl = uint64(60000 + r.Intn(200000))
+		}
+		if si != nil {
+			gl = 30000000 // staking calls carry a gas limit of 5,000,000
+		}
+		if o.Long != nil {
+			po.Random, po.Directed, po.Extra = r.Intn(3), r.Intn(3) == 0, o.Long.specsAt(h, len(w.EOAs))
+			gl = configs.BlockGasLimit // what CreateProposalBlock sets
+			if w.Galaxias {
+				gl = configs.BlockGasLimitGalaxias
+			}
+			po.PoolGas = gl
+		}
+		// what the contracts of the storage workload hold before the block (read from the builder's head state, as planTxs does)
+		preChild := map[common.Address]bool{}
+		if st, err := bch.N.BC.State(); err == nil {
+			for s := uint64(0); s < 2; s++ {
+				preChild[childAddr(s)] = st.GetState(childAddr(s), slotKey(0)) != (common.Hash{})
+			}
+		}
+		specs := planTxs(r, w, bch.N.BC, height, si, po)
 		mode := "hand-built"
 		if !o.HandOnly && r.Intn(2) == 0 {
 			mode = "CreateProposalBlock"
@@ -346,13 +484,6 @@ func runScenario(cs *core.Case, r *rand.Rand, o scenarioOpts, tag string) *finge
 			run.Count("pool_accepted", accepted)
 			blk, ps = bch.Propose(lastCommit)
 		} else {
-			gl := uint64(300000 + r.Intn(4000000))
-			if r.Intn(4) == 0 {
-				gl = uint64(60000 + r.Intn(200000))
-			}
-			if si != nil {
-				gl = 30000000 // staking calls carry a gas limit of 5,000,000
-			}
 			blk, ps = bch.HandBlock(lastCommit, gl, txs, evidence...)
 		}
 		if blk == nil {
@@ -372,20 +503,31 @@ func runScenario(cs *core.Case, r *rand.Rand, o scenarioOpts, tag string) *finge
 		}
 		seen := bch.SignCommit(set, height, bid, blk.Time().Add(3*time.Second), absent)
 		// ---- apply on every replica
-		rec := heightRec{Height: height, Mode: mode, Proposer: rs.cfgs[builder].Name, Block: fmt.Sprintf("%x", blk.Hash().Bytes()[:8]), Txs: len(blk.Transactions()), Specs: specs}
+		rec := heightRec{Height: height, Mode: mode, Proposer: rs.cfgs[builder].Name, Block: fmt.Sprintf("%x", blk.Hash().Bytes()[:8]), Txs: len(blk.Transactions()), Specs: specs, Restart: restarted}
+		if o.Long != nil && o.Heights > 40 {
+			rec.Specs = nil // (the case regenerates its plan from the seed; 200 heights of call data would drown the witness)
+		}
+		var rp *valReport
+		if plan != nil {
+			if rp = plan.At[height]; rp != nil {
+				rec.Report = rp.Kind
+			}
+		}
 		type res struct {
 			err                               error
 			state, info, pub, appvals, loaded string
 			receipts                          int
+			bi                                *types.BlockInfo
 		}
 		results := make([]res, len(rs.chains))
+		orders := map[string]bool{}
 		for i, ch := range rs.chains {
 			err := ch.Apply(blk, ps, seen)
 			x := res{err: err}
 			if err == nil {
 				x.state = canonState(ch.State)
 				bi := ch.RawBlockInfo(blk.Hash(), blk.Height())
-				x.info = canonInfo(bi)
+				x.info, x.bi = canonInfo(bi), bi
 				if bi != nil {
 					x.receipts = len(bi.Receipts)
 				}
@@ -399,6 +541,9 @@ func runScenario(cs *core.Case, r *rand.Rand, o scenarioOpts, tag string) *finge
 					if os.Getenv("C06_DEBUG") != "" {
 						fmt.Println("LOAD DIFF:", firstDiff(x.state, x.loaded))
 					}
+				}
+				if rp != nil && ch.ValHook != nil {
+					orders[orderKey(ch.ValHook(height, nil))] = true
 				}
 			}
 			results[i] = x
@@ -435,7 +580,10 @@ func runScenario(cs *core.Case, r *rand.Rand, o scenarioOpts, tag string) *finge
 		for i := 1; i < len(results); i++ {
 			x := results[i]
 			rel := "cache-config"
-			if strings.Contains(rs.cfgs[i].Name, "reopened") {
+			switch {
+			case rs.cfgs[0].Snap != rs.cfgs[i].Snap:
+				rel = "snapshot-vs-trie-only"
+			case rs.restarts[i] > 0 || rs.restarts[0] > 0:
 				rel = "reopened-database"
 			}
 			role := ""
@@ -457,16 +605,61 @@ func runScenario(cs *core.Case, r *rand.Rand, o scenarioOpts, tag string) *finge
 				cs.Violation("validator-updates-differ:"+rel, fmt.Sprintf("height %d: the application returned %s vs %s (%s)", h, x0.appvals, x.appvals, pair), wit(nil))
 				return nil
 			case x.state != x0.state:
-				cs.Violation("latest-block-state-differs:"+rel, fmt.Sprintf("height %d (%s): %s", h, pair, firstDiff(x0.state, x.state)), wit(nil))
+				key := "latest-block-state-differs:" + rel
+				if rp != nil {
+					key = "latest-block-state-differs:validator-report-order"
+				}
+				cs.Violation(key, fmt.Sprintf("height %d (%s): %s", h, pair, firstDiff(x0.state, x.state)), wit(nil))
 				return nil
 			case x.loaded != x0.loaded:
 				cs.Violation("stored-block-state-differs:"+rel, fmt.Sprintf("height %d, Store.Load() (%s): %s", h, pair, firstDiff(x0.loaded, x.loaded)), wit(nil))
 				return nil
 			}
 			run.Count("pairwise_comparisons", 1)
-			if rel == "reopened-database" {
+			if rs.restarts[i] > 0 {
 				run.Count("comparisons_with_reopened_replica", 1)
 			}
+			if rs.cfgs[0].Snap != rs.cfgs[i].Snap {
+				run.Count("comparisons_snapshot_vs_trie_only", 1)
+			}
+		}
+		// ---- what was reached
+		story := readStory(x0.bi)
+		run.Count("contract_creations_through_create2", len(story.Created))
+		run.Count("contract_self_destructs_of_storage_holders", len(story.Killed))
+		run.Count("churn_slot_reads", story.ChurnReads)
+		run.Count("reads_of_never_written_slots", story.NeverWritten)
+		if story.Rebirths > 0 {
+			run.Count("same_block_recreations", story.Rebirths)
+			over := 0
+			for _, a := range story.Created {
+				if preChild[a] {
+					over++
+				}
+			}
+			if over > 0 {
+				run.Count("same_block_recreations_over_committed_storage", over)
+				if snapAndTrie(rs.cfgs) {
+					run.Count("same_block_recreations_over_committed_storage_compared_snapshot_vs_trie_only", over)
+				}
+			}
+		}
+		if rp != nil {
+			run.Count("validator_reports_compared", 1)
+			run.Count("validator_reports:"+rp.Kind, 1)
+			run.Max("validator_report_distinct_orders_max", int64(len(orders)))
+			if len(orders) >= 3 {
+				run.Count("validator_reports_in_3+_distinct_orders", 1)
+			}
+			if strings.Contains(rp.Kind, "swap") {
+				run.Count("membership_swap_reports_compared", 1)
+				if rp.MixedPowers && len(orders) >= 2 {
+					run.Count("membership_swap_reports_compared_mixed_powers", 1)
+				}
+			}
+		}
+		if lo != nil {
+			lo.after(h, rs, x0.bi)
 		}
 		if len(evidence) > 0 {
 			run.Count("blocks_with_evidence", 1)
@@ -511,20 +704,35 @@ func runScenario(cs *core.Case, r *rand.Rand, o scenarioOpts, tag string) *finge
 		}
 		lastCommit = seen
 	}
-	if cs.I < 2 && (tag == "first" || tag == "corpus") {
+	if lo != nil {
+		lo.finish(o.Heights)
+	}
+	if cs.I < 2 && (tag == "first" || tag == "corpus" || tag == "valreports") {
 		var hs []map[string]interface{}
 		for _, h := range fp.Heights {
 			if len(hs) < 4 {
-				hs = append(hs, map[string]interface{}{"height": h.Height, "mode": h.Mode, "built_by": h.Proposer, "block": h.Block, "txs": h.Txs, "receipts": h.Receipts, "app_hash": h.AppHash, "info": h.Info, "state": h.State, "app_validators": h.Vals})
+				hs = append(hs, map[string]interface{}{"height": h.Height, "mode": h.Mode, "built_by": h.Proposer, "block": h.Block, "txs": h.Txs, "receipts": h.Receipts, "app_hash": h.AppHash, "info": h.Info, "state": h.State, "app_validators": h.Vals, "validator_report": h.Report, "restarted_before": h.Restart})
 			}
 		}
 		var names []string
 		for _, c := range rs.cfgs {
 			names = append(names, c.Name)
 		}
-		run.Sample(map[string]interface{}{"group": cs.Group, "case": cs.I, "validators": o.NVals, "galaxias": o.Galaxias, "replicas": names, "val_hook": o.ValHook, "staking": o.Staking, "evidence": o.Evidence, "reopen": o.Reopen, "first_heights": hs})
+		run.Sample(map[string]interface{}{"group": cs.Group, "case": cs.I, "validators": o.NVals, "galaxias": o.Galaxias, "replicas": names, "val_hook": o.ValHook, "staking": o.Staking, "evidence": o.Evidence, "reopen": o.Reopen, "restarts": o.Restarts, "first_heights": hs})
 	}
 	return fp
+}
+
+func snapAndTrie(cfgs []repCfg) bool {
+	s, t := false, false
+	for _, c := range cfgs {
+		if c.Snap {
+			s = true
+		} else {
+			t = true
+		}
+	}
+	return s && t
 }
 
 func errKind(errs []string) string {
@@ -537,9 +745,21 @@ func errKind(errs []string) string {
 	return "other"
 }
 
+type planOpts struct {
+	Random   int  // number of randomly drawn transactions (-1: 2-8)
+	Directed bool // storage workload steps among the random transactions
+	PoolGas  uint64
+	Extra    []*txgen.TxSpec // planned transactions (nonces are assigned here), placed after the random ones
+}
+
+func isDirected(class string) bool {
+	return strings.HasPrefix(class, "churn-") || strings.HasPrefix(class, "phoenix-") || class == "ballast"
+}
+
 // planTxs draws the transactions of one block from the head state of a replica, plus calls of the
-// fixed contracts (several per block, so that consecutive blocks touch the same slots and accounts).
-func planTxs(r *rand.Rand, w *txgen.World, bc *blockchain.BlockChain, height uint64, si *stakingInfo) []*txgen.TxSpec {
+// fixed contracts (several per block, so that consecutive blocks touch the same slots and accounts)
+// and steps of the storage workload (directed.go).
+func planTxs(r *rand.Rand, w *txgen.World, bc *blockchain.BlockChain, height uint64, si *stakingInfo, po planOpts) []*txgen.TxSpec {
 	st, err := bc.State()
 	if err != nil {
 		return nil
@@ -548,36 +768,61 @@ func planTxs(r *rand.Rand, w *txgen.World, bc *blockchain.BlockChain, height uin
 	for _, a := range w.EOAs {
 		nonce[a], bal[a] = st.GetNonce(a), new(big.Int).Set(st.GetBalance(a))
 	}
-	pool := uint64(3000000)
+	pool := po.PoolGas
 	var specs []*txgen.TxSpec
-	n := 2 + r.Intn(7)
+	n := po.Random
+	if n < 0 {
+		n = 2 + r.Intn(7)
+	}
+	var steps [][]*txgen.TxSpec
 	for i := 0; i < n; i++ {
 		var spec *txgen.TxSpec
 		if si != nil && r.Intn(4) == 0 {
 			from := r.Intn(len(w.EOAs))
-			spec = si.tx(r, from, nonce[w.EOAs[from]])
+			spec = si.tx(r, from, 0)
 		}
 		if spec != nil {
+		} else if po.Directed && r.Intn(4) == 0 {
+			steps = append(steps, directedStep(r, len(w.EOAs)))
+			continue
 		} else if r.Intn(3) == 0 { // call of a fixed contract
 			from := r.Intn(len(w.EOAs))
 			to := fixedAddr(r.Intn(4))
-			spec = &txgen.TxSpec{From: from, To: &to, Nonce: nonce[w.EOAs[from]], Value: big.NewInt(int64(r.Intn(100))), Gas: uint64(150000 + r.Intn(200000)), Price: big.NewInt(int64(1 + r.Intn(50))), Class: "fixed-contract"}
+			spec = &txgen.TxSpec{From: from, To: &to, Value: big.NewInt(int64(r.Intn(100))), Gas: uint64(150000 + r.Intn(200000)), Price: big.NewInt(int64(1 + r.Intn(50))), Class: "fixed-contract"}
 		} else {
-			spec = txgen.GenTx(r, w, txgen.Ctx{Nonce: func(a common.Address) uint64 { return nonce[a] }, Balance: func(a common.Address) *big.Int { return bal[a] }, PoolGas: pool})
+			steps = append(steps, nil) // a generated transaction: drawn below, when the nonces before it are known
+			continue
 		}
-		spec.DataHex = fmt.Sprintf("%x", spec.Data)
-		from := w.EOAs[spec.From]
-		ig := txgen.IntrinsicGas(spec.Data, spec.To == nil, w.Galaxias)
-		cost := new(big.Int).Mul(new(big.Int).SetUint64(spec.Gas), spec.Price)
-		if spec.BadSig == "" && spec.Nonce == nonce[from] && spec.Gas >= ig && spec.Gas <= pool && new(big.Int).Add(cost, spec.Value).Cmp(bal[from]) <= 0 {
-			nonce[from]++
-			use := ig + (spec.Gas-ig)/3
-			bal[from].Sub(bal[from], new(big.Int).Add(spec.Value, new(big.Int).Mul(new(big.Int).SetUint64(use), spec.Price)))
-			if pool > use {
-				pool -= use
+		steps = append(steps, []*txgen.TxSpec{spec})
+	}
+	if len(po.Extra) > 0 {
+		steps = append(steps, po.Extra)
+	}
+	for _, step := range steps {
+		if step == nil {
+			step = []*txgen.TxSpec{txgen.GenTx(r, w, txgen.Ctx{Nonce: func(a common.Address) uint64 { return nonce[a] }, Balance: func(a common.Address) *big.Int { return bal[a] }, PoolGas: pool})}
+		}
+		for _, spec := range step {
+			from := w.EOAs[spec.From]
+			if isDirected(spec.Class) || spec.Class == "fixed-contract" || strings.HasPrefix(spec.Class, "staking-") {
+				spec.Nonce = nonce[from]
 			}
+			spec.DataHex = fmt.Sprintf("%x", spec.Data)
+			ig := txgen.IntrinsicGas(spec.Data, spec.To == nil, w.Galaxias)
+			cost := new(big.Int).Mul(new(big.Int).SetUint64(spec.Gas), spec.Price)
+			if spec.BadSig == "" && spec.Nonce == nonce[from] && spec.Gas >= ig && spec.Gas <= pool && new(big.Int).Add(cost, spec.Value).Cmp(bal[from]) <= 0 {
+				nonce[from]++
+				use := ig + (spec.Gas-ig)/3
+				if isDirected(spec.Class) {
+					use = spec.Gas // (an upper bound keeps the planned transactions inside the block)
+				}
+				bal[from].Sub(bal[from], new(big.Int).Add(spec.Value, new(big.Int).Mul(new(big.Int).SetUint64(use), spec.Price)))
+				if pool > use {
+					pool -= use
+				}
+			}
+			specs = append(specs, spec)
 		}
-		specs = append(specs, spec)
 	}
 	return specs
 }
